@@ -49,6 +49,8 @@ type RunSpec struct {
 	// LogFilePath: non-empty: the run is NOT verbose and the scenario log goes to this path
 	// (LOG_FILE_PATH); a path that cannot be opened makes the run fall back to its output logger.
 	LogFilePath string
+	// PushGateway: non-empty: PROMETHEUS_PUSH_GATEWAY, the URL the run pushes its metrics to.
+	PushGateway string
 }
 
 type RunOutcome struct {
@@ -165,7 +167,7 @@ func Execute(spec *RunSpec) (*RunOutcome, error) {
 	if wait == 0 {
 		wait = 10 * time.Second
 	}
-	r, err := run.NewRun(opts, sc, trig, wait, envsettings.Settings{Log: envsettings.Log{FilePath: spec.LogFilePath}}, m, out)
+	r, err := run.NewRun(opts, sc, trig, wait, envsettings.Settings{Log: envsettings.Log{FilePath: spec.LogFilePath}, Prometheus: envsettings.Prometheus{PushGateway: spec.PushGateway}}, m, out)
 	if err != nil {
 		return nil, fmt.Errorf("new run: %w", err)
 	}
